@@ -253,4 +253,7 @@ def multiple_of_unit(kf):
 UNITS = {'c08_lengths': (['C08'], length_unit), 'c08_multiple_of': (['C08'], multiple_of_unit)}
 SEARCH = {'c08_lengths': ['c08_len'], 'c08_multiple_of': ['c08_num_search_multiple_of']}
 
-BOUNDED = {'C08': [dict(case='c08_len', function='max_length / min_length / chars_* / max_items / min_items validators through their public functions', bound='boundary lengths around n for ASCII and multi-byte strings and small vectors', why='concrete cross-check of the length kernels (which are proved) on the compiled code')]}
+BOUNDED = {'C08': [dict(case='c08_derive', function='derive/src/validators.rs code generation (list mode, nullable elements, several validators per argument) and src/validators/regex.rs, through Schema::execute',
+                        bound='37 (query, accepted?) pairs over 9 annotated arguments, run against one schema in 4 orders (as written, reversed, 2 seeded shuffles)',
+                        why='the wiring of validators to arguments is proc-macro output; regex delegates to the regex crate; order-dependence (process-wide state) is a history property no per-call contract sees'),
+                   dict(case='c08_len', function='max_length / min_length / chars_* / max_items / min_items validators through their public functions', bound='boundary lengths around n for ASCII and multi-byte strings and small vectors', why='concrete cross-check of the length kernels (which are proved) on the compiled code')]}
